@@ -187,6 +187,103 @@ def c18_2(ctx):
             ctx.refute(f'space:regex:{key}', site, 'parsing patterns use \\s / [ \\t] where whitespace is meant, never a literal space',
                        f'{key} contains a literal space: a TAB at that position ends the match')
     ctx.ok('space:scanned', '-', 'string operations and patterns of the parsing modules were scanned', f'{n} literal-space string sites, {nrx} patterns')
+    # #if / #elif operands may be compared as text: a captured operand whose pattern can absorb blanks is trimmed before it is kept
+    hm = ctx.repo.func('bespokeasm.assembler.preprocessor.condition.IfPreprocessorCondition._handle_matching')
+    COND = 'bespokeasm.assembler.preprocessor.condition'
+    by_param = {'compare_pattern': ('PREPROCESSOR_CONDITION_IF_PATTERN', 'PREPROCESSOR_CONDITION_ELIF_PATTERN'),
+                'implied_pattern': ('PREPROCESSOR_CONDITION_IMPLIED_IF_PATTERN', 'PREPROCESSOR_CONDITION_IMPLIED_ELIF_PATTERN')}
+
+    def _is_blank_class(op, av):
+        if op == sre.LITERAL:
+            return av in (32, 9)
+        if op == sre.IN:
+            return all(x == (sre.CATEGORY, sre.CATEGORY_SPACE) or (x[0] == sre.LITERAL and x[1] in (32, 9)) for x in av)
+        return False
+
+    def _blank_only(alt):
+        # the alternative can match blanks and nothing else (zero-width assertions aside)
+        seen = False
+        for op, av in alt:
+            if op in (sre.ASSERT, sre.ASSERT_NOT, sre.AT):
+                continue
+            if _is_blank_class(op, av):
+                seen = True
+            elif op in (sre.MAX_REPEAT, sre.MIN_REPEAT) and len(av[2]) == 1 and _is_blank_class(*av[2][0]):
+                seen = True
+            elif op == sre.SUBPATTERN and _blank_only(av[3]):
+                seen = True
+            else:
+                return False
+        return seen
+
+    def _absorbs_blank(seq):
+        # the (sub)pattern is a repetition one of whose alternatives is a lone blank / whitespace class
+        for op, av in seq:
+            if op in (sre.MAX_REPEAT, sre.MIN_REPEAT):
+                body = av[2]
+                alts = []
+                for o2, a2 in body:
+                    if o2 == sre.BRANCH:
+                        alts += a2[1]
+                    elif o2 == sre.SUBPATTERN:
+                        for o3, a3 in a2[3]:
+                            alts += a3[1] if o3 == sre.BRANCH else [[(o3, a3)]]
+                    else:
+                        alts.append([(o2, a2)])
+                for alt in alts:
+                    if _blank_only(alt):
+                        return True
+            if op == sre.SUBPATTERN and _absorbs_blank(av[3]):
+                return True
+        return False
+
+    def _group(seq, k):
+        for op, av in seq:
+            if op == sre.SUBPATTERN:
+                if av[0] == k:
+                    return av[3]
+                r = _group(av[3], k)
+                if r is not None:
+                    return r
+            elif op == sre.BRANCH:
+                for alt in av[1]:
+                    r = _group(alt, k)
+                    if r is not None:
+                        return r
+            elif op in (sre.MAX_REPEAT, sre.MIN_REPEAT):
+                r = _group(av[2], k)
+                if r is not None:
+                    return r
+        return None
+    mvars = {}
+    for a in walk_no_nested(hm.node):
+        if isinstance(a, ast.Assign) and isinstance(a.value, ast.Call) and isinstance(a.value.func, ast.Attribute) and a.value.func.attr in ('match', 'search', 'fullmatch') \
+                and unparse(a.value.func.value) in by_param:
+            mvars[unparse(a.targets[0])] = unparse(a.value.func.value)
+    n_ops = 0
+    for st, tgt, val in self_attr_stores(hm.node):
+        if tgt.attr not in ('_lhs_expression', '_rhs_expression') or val is None:
+            continue
+        leaves = val.values if isinstance(val, ast.BoolOp) else [val]
+        for leaf in leaves:
+            inner, stripped = leaf, False
+            if isinstance(inner, ast.Call) and isinstance(inner.func, ast.Attribute) and inner.func.attr == 'strip' and not inner.args:
+                inner, stripped = inner.func.value, True
+            if not (isinstance(inner, ast.Call) and isinstance(inner.func, ast.Attribute) and inner.func.attr == 'group' and unparse(inner.func.value) in mvars
+                    and len(inner.args) == 1 and isinstance(inner.args[0], ast.Constant)):
+                continue
+            k = inner.args[0].value
+            absorbs = False
+            for cname in by_param[mvars[unparse(inner.func.value)]]:
+                v = ctx.fold.module_const(COND, cname)
+                gseq = _group(rx.parse(v.pattern, v.flags), k)
+                absorbs = absorbs or (gseq is not None and _absorbs_blank(gseq))
+            n_ops += 1
+            ctx.check(stripped or not absorbs, f'space:condition-operand:{tgt.attr}:group{k}', hm.site(st),
+                      'an #if/#elif operand whose pattern can take in surrounding blanks is trimmed before it is kept (operands naming labels are compared as text)',
+                      f'{unparse(leaf)} keeps the blanks the pattern absorbed: `#if MODE  == fast` (two blanks) differs from `#if MODE == fast`')
+    if n_ops < 4:
+        ctx.err('space:condition-operand', hm.site(), 'at least 4 captured condition operands', f'{n_ops}')
     # mnemonic / operand separation
     pi = ctx.repo.func('bespokeasm.assembler.model.instruction_parser.InstructioParser.parse_instruction')
     sp = [c for c in ast.walk(pi.node) if isinstance(c, ast.Call) and isinstance(c.func, ast.Attribute) and c.func.attr == 'split']
@@ -260,6 +357,8 @@ def c18_scopes(ctx):
 RULES = [c18_1, c18_2, c18_3, c18_scopes]
 
 MUTANTS = [
+    V('c18-if-lhs-untrimmed', 'assembler/preprocessor/condition.py', "            self._lhs_expression = match.group(1).strip()\n", "            self._lhs_expression = match.group(1)\n", 'C18.2'),
+    V('c18-if-rhs-untrimmed', 'assembler/preprocessor/condition.py', "match.group(5).strip()", "match.group(5)", 'C18.2'),
     V('c18-include-anchored', 'assembler/assembly_file.py', "([\\w\\.\\-\\_]+)(?:\\'|\\\")',", "([\\w\\.\\-\\_]+)(?:\\'|\\\")\\s*$',", 'C18.3'),
     V('c18-lookup-no-lower', 'assembler/model/instruction_parser.py', "        mnemonic = instr_parts[0].lower()", "        mnemonic = instr_parts[0]", 'C13.6'),
     V('c18-register-case-sensitive', 'assembler/model/operand/types/register.py', "            operand.strip(),\n            flags=re.IGNORECASE,\n        )", "            operand.strip(),\n        )", 'C18.1'),
